@@ -19,14 +19,23 @@ class Lab:
         self.sanitize = sanitize
         self.want_cpp, self.want_py = want_cpp, want_py
         self.want_matlab = want_matlab
+        self.spell_rng, self.expanded_p, self.text_filter = None, 0.25, None
         self.ok = False
         self.err = ""
         self.seq = 0
 
     def prepare(self):
         os.makedirs(self.root, exist_ok=True)
-        self.pkgdir = vlib.write_package(self.root, self.pkg, self.gen.rng, ndjson=self.ndjson,
-                                         cpp=self.want_cpp, python=True, matlab=self.want_matlab)
+        self.pkgdir = vlib.write_package(self.root, self.pkg, self.spell_rng or self.gen.rng, ndjson=self.ndjson,
+                                         cpp=self.want_cpp, python=True, matlab=self.want_matlab,
+                                         expanded_p=self.expanded_p)
+        if self.text_filter:
+            for dp, _, fns in os.walk(self.root):
+                for fn in fns:
+                    if fn.endswith(".yml") and not fn.startswith("_"):
+                        fp = os.path.join(dp, fn)
+                        txt = open(fp).read()
+                        open(fp, "w").write(self.text_filter(txt))
         rc, out, err = vlib.yardl(self.yardl, self.pkgdir, "generate")
         if rc != 0:
             self.err = f"yardl generate failed rc={rc}: {err[-2000:]}"
